@@ -58,10 +58,37 @@ def bounded(tier, seed):
                 standins=standins, violations=violations)
 
 
+def replay_finalize(inp):
+    """counterexample of Store.finalize_metadata@fields: call the real function on the model's arguments and re-check the clauses"""
+    import hashlib
+    from liquer.store import key_name
+    md = inp.get("metadata")
+    md = {k: (dict(v) if isinstance(v, dict) else v) for k, v in md.items()} if isinstance(md, dict) else {}
+    data = inp.get("data")
+    data = data.encode("latin-1", "replace") if isinstance(data, str) else None
+    key = inp.get("key")
+    out = MemoryStore().finalize_metadata(md, key, is_dir=bool(inp.get("is_dir")), data=data, update=bool(inp.get("update")))
+    fi = out.get("fileinfo") or {}
+    k = key or ""
+    bad = []
+    if out.get("key") != k:
+        bad.append(("key", out.get("key"), k))
+    if fi.get("name") != key_name(k) or fi.get("is_dir") != bool(inp.get("is_dir")):
+        bad.append(("name/is_dir", (fi.get("name"), fi.get("is_dir")), (key_name(k), bool(inp.get("is_dir")))))
+    if data is not None and fi.get("size") != len(data):
+        bad.append(("size", fi.get("size"), len(data)))
+    if data is not None and fi.get("md5") != hashlib.md5(data).hexdigest():
+        bad.append(("md5", fi.get("md5"), hashlib.md5(data).hexdigest()))
+    return dict(confirmed=bool(bad), differences=[dict(field=a, observed=repr(b), expected=repr(c)) for a, b, c in bad],
+                inputs=dict(metadata=inp.get("metadata"), key=key, data=repr(data)))
+
+
 def replay(doc):
     inp = doc.get("inputs") or {}
     ob = doc["obligation"]
     me = inp.get("self") or {}
+    if "finalize_metadata" in ob:
+        return replay_finalize(inp)
     if "MemoryStore" not in ob:
         return dict(confirmed=False, note="no replay scenario for this obligation")
     s = MemoryStore()
